@@ -205,9 +205,12 @@ pub fn selection_valid(model: &Model) -> Vec<(String, String)> {
     }
     for (si, ws) in wb.worksheets.iter().enumerate() {
         if let Some(view) = ws.views.get(&0) {
-            let [r1, c1, r2, c2] = view.range;
-            if r1 < 1 || r2 > LAST_ROW || c1 < 1 || c2 > LAST_COLUMN || r1 > r2 || c1 > c2 {
-                v.push(("range-invalid".to_string(), format!("sheet {} selected range {:?} not ordered / outside the grid", si, view.range)));
+            // the range is stored as (anchor corner, opposite corner): set_selected_range accepts both orders
+            // (it only requires the selected cell on a corner), so the rectangle is the normalised one
+            let [ra, ca, rb, cb] = view.range;
+            let (r1, r2, c1, c2) = (ra.min(rb), ra.max(rb), ca.min(cb), ca.max(cb));
+            if r1 < 1 || r2 > LAST_ROW || c1 < 1 || c2 > LAST_COLUMN {
+                v.push(("range-invalid".to_string(), format!("sheet {} selected range {:?} outside the grid", si, view.range)));
             }
             if view.row < 1 || view.row > LAST_ROW || view.column < 1 || view.column > LAST_COLUMN {
                 v.push(("cell-outside-grid".to_string(), format!("sheet {} selected cell ({},{}) outside the grid", si, view.row, view.column)));
